@@ -126,6 +126,13 @@ def _droptokchar(e):
     return None
 
 
+def _bumptoktype(e):
+    if e.get('toks') and e.get('outcome') == 'ok':
+        e['toks'][0][0] += 1
+        return e
+    return None
+
+
 PROPS = {
     'C11': dict(
         tv=dict(module='ScannerTrace', cfg='ScannerTrace.cfg'),
@@ -210,6 +217,13 @@ PROPS = {
         tv=dict(module='CsvTrace', cfg='CsvTrace.cfg'),
         mc=[dict(module='CsvMC', cfg={'quick': 'CsvMC.quick.cfg', 'thorough': 'CsvMC.thorough.cfg'}, timeout=1500)],
         corrupt=[('drop a character of a token value', _droptokchar)],
+        exhaustive_part=True,
+        harness_prefix='HARNESS:',
+    ),
+    'C13': dict(
+        tv=dict(module='LexerTrace', cfg='LexerTrace.cfg'),
+        mc=[],
+        corrupt=[('token type + 1', _bumptoktype)],
         exhaustive_part=True,
         harness_prefix='HARNESS:',
     ),
@@ -362,5 +376,16 @@ DOC = {
         note='Trusted: TLC, Json module, recorder. A trailing line ending, raw fields containing quote characters and characters above '
              'U+FFFE are outside the statement and not generated; one line-ending style per table.',
         technique='TLA+ framing spec (Csv.Write/Regroup) + TLC model checking of the framing (CsvMC) + TLC trace validation of the real CSV tokenizer',
+    ),
+    'C13': dict(
+        level='Lexer.tla states the lexical grammar of the generic and the expression tokenizer: the lexeme classes, WellFormed(class, text), the '
+              'token type each class must be reported with, and CanAbut (two lexemes may be adjacent only if maximal munch cannot join or '
+              're-cut them). Lexeme sequences (all sequences of <= 3 over class representatives plus every multi-character symbol and every '
+              'keyword spelling; random sequences of any length with random Unicode payloads) are written out and tokenized by the real '
+              'tokenizers; LexerTrace.tla first validates the sequence itself (well-formedness and separability - generator validation) and '
+              'then requires the token list to be exactly the lexemes with the types of their classes plus the end-of-input marker.',
+        note='Trusted: TLC, Json module, recorder. CanAbut is deliberately conservative (a separator is inserted whenever merging is '
+             'conceivable); hexadecimal numbers are not produced by either tokenizer and not generated.',
+        technique='TLA+ lexical grammar (Lexer.WellFormed/CanAbut/TypeOf) + TLC trace validation of generated lexeme sequences on the real tokenizers',
     ),
 }
